@@ -28,15 +28,15 @@ type vfsFile struct {
 }
 
 type vfsState struct {
-	files   map[string]string // path -> content (view, kept in sync with inodes)
-	inodes  map[string]*vfsInode
-	dirs    map[string]bool
-	open    map[*os.File]*vfsFile
-	step    int
-	crashAt int // -1: never
-	tmpSeq  int
-	log     []string
-	partial int // how a write that is interrupted splits: 0 nothing, 1 one byte, 2 half, 3 all but one byte
+	files    map[string]string // path -> content (view, kept in sync with inodes)
+	inodes   map[string]*vfsInode
+	dirs     map[string]bool
+	open     map[*os.File]*vfsFile
+	step     int
+	crashAt  int // -1: never
+	tmpSeq   int
+	log      []string
+	partial  int             // how a write that is interrupted splits: 0 nothing, 1 one byte, 2 half, 3 all but one byte
 	failOpen map[string]bool // paths whose Open fails (unreadable)
 }
 
